@@ -47,6 +47,14 @@ def conn_check(run, spec):
         run.violation({'kind': 'oracle', 'rule': v['rule'], 'detail': v.get('detail'), 'step': st,
                        'program': t2check.light(small), 'n_violations': len(new_violations),
                        'how_to_replay': './check %s --replay <this file>' % run.pid})
+    if res['mismatches'] and spec.get('explained'):
+        # disagreements that are the visible consequence of a listed known finding (the model cannot predict them)
+        keep = []
+        for m in res['mismatches']:
+            if not spec['explained'](run, res['programs'][m['prog']], m):
+                keep.append(m)
+        res['explained_by_known_findings'] = len(res['mismatches']) - len(keep)
+        res['mismatches'] = keep
     if res['mismatches'] and not run.violations:
         def orc(p):
             if not oracle:
